@@ -23,6 +23,13 @@ class Boom(Exception):
     """The exception raised by a scripted failing body."""
 
 
+class FalsyBoom(Boom):
+    """A legal exception object that happens to be falsy (it has a length, like an exception carrying a collection)."""
+
+    def __len__(self):
+        return 0
+
+
 class Runtime:
     """Shared by all bodies of one built program: call log, invocation counters,
     scripted decisions / failures, optional controller for async bodies."""
@@ -34,6 +41,7 @@ class Runtime:
         self.shared_funcs = {}
         self.controller = None  # set by harness/drive.py for controlled schedules
         self.mutate_defaults = False
+        self.silent_failures = True
 
     def reset(self):
         self.log = []          # dicts: path, idx, args [[param, text]], objs {param: id}
@@ -54,7 +62,9 @@ class Runtime:
     def _maybe_fail(self, path, idx, args=()):
         nd = self.nodes[path]
         if idx in nd["fail_at"] or any(IR.canon(v) in nd["fail_args"] for _, v in args):
-            exc = Boom(f"boom at {path}#{idx}")
+            # a third of the failures carry NO message (str(exc) == ""), like a bare KeyError() or a failed assert
+            k = (len(path) + idx) % 3 if self.silent_failures else 2
+            exc = Boom() if k == 0 else FalsyBoom(f"boom at {path}#{idx}") if k == 1 else Boom(f"boom at {path}#{idx}")
             self.raised.append((path, idx, exc))
             raise exc
 
@@ -189,6 +199,10 @@ def _mk_callable(rt, path, nd, entry):
     if shared:
         src = src.replace(repr(path), repr("fid:" + nd["fid"]))
         rt.nodes.setdefault("fid:" + nd["fid"], nd)
+    if nd.get("deftag"):
+        # a docstring makes this a DIFFERENT definition (other constants) with the same name, parameters and outputs
+        head, body = src.split("\n", 1)
+        src = head + f"\n    {nd['deftag']!r}\n" + body
     ns = {"RT": rt}
     exec(src, ns)  # noqa: S102 - harness-generated source
     if shared:
